@@ -1,0 +1,38 @@
+//go:build verif
+
+package multidb
+
+// Machine-checked contracts for /verif (read as text by the VC generator; no code).
+//
+//@ // two tables overlap exactly when one name is a prefix of the other (symmetric by construction)
+//@ func tablesConflicting
+//@   ensures result == (strings.HasPrefix(a, b) || strings.HasPrefix(b, a))
+//@ // the compiled pattern of a route is a function of the request (fmtfilter closures do not depend on mutable state)
+//@ funcfield scanfRoute.Name
+//@   pure
+//@
+//@ // ---- routing (deterministic: a function of the immutable routing tables and the request) ----
+//@ // fmtFirst(p, req, i): index of the first pattern route at or after i that accepts req, -1 if none
+//@ spec fmtFirst(p *Producer, req string, i int) int = ite(i >= len(p.routingFmt), -1, ite(res1(p.routingFmt[i].Name(req)) == nil, i, fmtFirst(p, req, i + 1)))
+//@ spec matches(p *Producer, req string) bool = has(p.routingTable, req) || fmtFirst(p, req, 0) >= 0
+//@ // the route that matches req directly: the exact entry, else the first accepting pattern
+//@ spec mType(p *Producer, req string) TypeName = ite(has(p.routingTable, req), p.routingTable[req].Type, p.routingFmt[fmtFirst(p, req, 0)].Type)
+//@ spec mName(p *Producer, req string) string = ite(has(p.routingTable, req), p.routingTable[req].Name, p.routingFmt[fmtFirst(p, req, 0)].Name(req))
+//@ spec mTable(p *Producer, req string) string = ite(has(p.routingTable, req), p.routingTable[req].Table, p.routingFmt[fmtFirst(p, req, 0)].Table)
+//@ spec mNoDrop(p *Producer, req string) bool = ite(has(p.routingTable, req), p.routingTable[req].NoDrop, p.routingFmt[fmtFirst(p, req, 0)].NoDrop)
+//@ // rt*(p, req, rT, rN): the route of req with the pending right parts rT (table) and rN (name): if req matches, the
+//@ // match extended by the right parts; otherwise the last path element moves to the table part (or, at the root, the
+//@ // whole rest becomes the name part) and the search continues with the parent path
+//@ spec rtType(p *Producer, req string, rT string, rN string) TypeName = ite(matches(p, req), mType(p, req), ite(strings.LastIndexByte(req, 47) < 0, rtType(p, "", rT, req), rtType(p, substr(req, 0, strings.LastIndexByte(req, 47)), strcat(rT, substr(req, strings.LastIndexByte(req, 47) + 1, len(req))), rN)))
+//@ spec rtName(p *Producer, req string, rT string, rN string) string = ite(matches(p, req), strcat(mName(p, req), rN), ite(strings.LastIndexByte(req, 47) < 0, rtName(p, "", rT, req), rtName(p, substr(req, 0, strings.LastIndexByte(req, 47)), strcat(rT, substr(req, strings.LastIndexByte(req, 47) + 1, len(req))), rN)))
+//@ spec rtTable(p *Producer, req string, rT string, rN string) string = ite(matches(p, req), strcat(mTable(p, req), rT), ite(strings.LastIndexByte(req, 47) < 0, rtTable(p, "", rT, req), rtTable(p, substr(req, 0, strings.LastIndexByte(req, 47)), strcat(rT, substr(req, strings.LastIndexByte(req, 47) + 1, len(req))), rN)))
+//@ spec rtNoDrop(p *Producer, req string, rT string, rN string) bool = ite(matches(p, req), mNoDrop(p, req), ite(strings.LastIndexByte(req, 47) < 0, rtNoDrop(p, "", rT, req), rtNoDrop(p, substr(req, 0, strings.LastIndexByte(req, 47)), strcat(rT, substr(req, strings.LastIndexByte(req, 47) + 1, len(req))), rN)))
+//@
+//@ // RouteOf(req) is exactly that function of the routing tables and the request
+//@ func (*Producer).RouteOf
+//@   requires p != nil && forall(i, 0, len(p.routingFmt), p.routingFmt[i].Name != nil)
+//@   ensures  result.Type == rtType(p, req, "", "") && result.Name == rtName(p, req, "", "") && result.Table == rtTable(p, req, "", "") && result.NoDrop == rtNoDrop(p, req, "", "")
+//@   loop 1 invariant rtType(p, cur(req), rightPartTable, rightPartName) == rtType(p, req, "", "") && rtName(p, cur(req), rightPartTable, rightPartName) == rtName(p, req, "", "") && rtTable(p, cur(req), rightPartTable, rightPartName) == rtTable(p, req, "", "") && rtNoDrop(p, cur(req), rightPartTable, rightPartName) == rtNoDrop(p, req, "", "")
+//@   loop 2 invariant 0 <= i && i <= len(p.routingFmt) && (ok == has(p.routingTable, cur(req)) || (ok && !has(p.routingTable, cur(req)) && i >= 1 && fmtFirst(p, cur(req), 0) == i - 1)) && (!ok ==> fmtFirst(p, cur(req), 0) == fmtFirst(p, cur(req), i))
+//@   loop 2 invariant ok && has(p.routingTable, cur(req)) ==> dest.Type == p.routingTable[cur(req)].Type && dest.Name == p.routingTable[cur(req)].Name && dest.Table == p.routingTable[cur(req)].Table && dest.NoDrop == p.routingTable[cur(req)].NoDrop
+//@   loop 2 invariant ok && !has(p.routingTable, cur(req)) ==> dest.Type == p.routingFmt[i-1].Type && dest.Name == p.routingFmt[i-1].Name(cur(req)) && dest.Table == p.routingFmt[i-1].Table && dest.NoDrop == p.routingFmt[i-1].NoDrop
